@@ -387,6 +387,18 @@ pub fn format_names(ctx: &Context, names: &Punctuated<TokenReference>, shape: Sh
 pub assume_specification [Return::new] () -> (r: Return) ensures ppairs(n_ret_returns(&r)).len() == 0;
 impl HasInlineComments for Expression { #[verifier::external_body] fn has_inline_comments(&self) -> bool { unimplemented!() } }
 """, module="formatters::block"),
+        Raw("""
+#[verifier::external_body] pub fn vx_without_leading_newlines(t: &TokenReference) -> (r: Vec<Token>) { unimplemented!() /* trivia_remove_leading_newlines(t.leading_trivia().collect()) */ }
+""", module="formatters::block"),
+        Fn("src/formatters/block.rs", "last_stmt_remove_leading_newlines", contract="""
+    // total (C07): the `unknown node` arm is an obligation over every kind of last statement the feature set knows
+    // (unit block uses this function through an assumed contract on an uninterpreted `last_sem`; its totality is proved here)
+""", edits=[
+            Hole("trivia_remove_leading_newlines(token.leading_trivia().collect())", "vx_without_leading_newlines(&token)", count=None, kind="wrapper", why="iterator chain over the leading trivia (newlines at the front dropped)"),
+            Hole("""trivia_remove_leading_newlines(
+                    return_node.token().leading_trivia().collect(),
+                )""", "vx_without_leading_newlines(return_node.token())", kind="wrapper", why="iterator chain over the leading trivia (newlines at the front dropped)"),
+        ]),
         Fn("src/formatters/block.rs", "is_function_or_table_constructor", mode="stub"),
         Fn("src/formatters/block.rs", "format_return", contract="""
     requires exprs_wf(n_ret_returns(return_node)),
